@@ -276,6 +276,8 @@ def sweep(ck, rng, n, stats, directed=False):
                           {"model": model, "cmetrics": cms, "graph_metrics": gms, "models": c["models"], "all_cmetrics": c["cmetrics"], "table": c["table"], "query": c["query"], "target": t, "error": r.get("error"), "sql": r.get("sql")}, finding_key=key)
             if r["outcome"] != "sql_error":
                 disagree += 1
+                if disagree <= 4:
+                    ck.obligation("correspondence C06: outcome kind", False, f"real={r['outcome']} {r.get('error')} model={a.get('outcome')} target={t}")
             continue
         if r["outcome"] != "ok" or mo != "ok":
             if r["outcome"] != mo:
